@@ -381,3 +381,61 @@ def region_callee_paths_deep(prog, body, region, crate="rusty_basic", depth=1):
                 and g.file == getattr(body.fn, "file", None):
             out += [mir.callee_path(t2) for _b2, t2 in g.body.calls()]
     return out
+
+
+_COUNTER_MEMO = {}
+
+
+def for_counter_params(prog, T):
+    """(generator fn id, 0-based argument index) pairs that always receive the FOR counter: at every
+    call among the generator functions the argument is the `variable_name` of a ForLoop node, or a
+    parameter that is itself such a pair.  The checker restricts the counter to a plain numeric
+    variable (ForNextCounterMatch::ensure_numeric_variable), so evaluating it writes register A only
+    and storing into it evaluates nothing."""
+    from .. import emit
+    key = id(prog)
+    if key in _COUNTER_MEMO:
+        return _COUNTER_MEMO[key]
+    gens = emit.generator_fns(prog)
+    sites = {}
+    for g in gens:
+        for e in T.evs(g).values():
+            if e.callee is not None and e.kind in ("gen", "EXPR"):
+                sites.setdefault(e.callee.id, []).append((g, e))
+    cv = set()
+
+    def is_counter(g, o):
+        o = mir.strip_all(o)
+        # `counter.clone().at_pos(pos)`: the same expression with a position attached
+        while True:
+            if o[0] == "call" and o[1].split("::")[-1] == "at_pos" and o[2]:
+                o = mir.strip_all(o[2][0])
+            elif o[0] in ("clone", "deref", "ref") and len(o) > 1 and isinstance(o[1], tuple):
+                o = mir.strip_all(o[1])
+            else:
+                break
+        txt = mir.short_origin(o)
+        if re.match(r"^arg\d+\.variable_name(\.element)?$", txt):
+            return True
+        return o[0] == "param" and (g.id, o[1]) in cv
+    changed = True
+    while changed:
+        changed = False
+        for fid, ss in sites.items():
+            f = prog.fns[fid]
+            if len(ss) > 6:
+                continue        # the general emitters are called with everything
+            for i in range(1, f.argc):
+                if (fid, i) in cv:
+                    continue
+                if all(len(e.args) > i and is_counter(g, e.args[i]) for g, e in ss):
+                    cv.add((fid, i))
+                    changed = True
+    _COUNTER_MEMO[key] = (cv, is_counter)
+    return _COUNTER_MEMO[key]
+
+
+def evaluates_for_counter(prog, T, g, e):
+    """the emission event e in generator g evaluates / stores exactly the FOR counter"""
+    cv, is_counter = for_counter_params(prog, T)
+    return len(e.args) > 1 and is_counter(g, e.args[1])
